@@ -222,6 +222,10 @@ func specText(specs []SpecT) string {
 	parts := make([]string, len(specs))
 	for i, s := range specs {
 		parts[i] = parse.Field{Key: s.Key, Order: s.Order, Fixed: s.Fixed}.String()
+		if s.Order == "fixed" && len(s.Fixed) == 0 {
+			// the literal order name: key@fixed
+			parts[i] = parse.Field{Key: s.Key, Order: "first"}.String() + "@fixed"
+		}
 	}
 	text := strings.Join(parts, ",")
 	// The driver receives the parsed form; make sure it is what the real parser sees.
@@ -263,6 +267,8 @@ func parseErrTag(err error) string {
 		return "unit"
 	case strings.Contains(s, "must not be empty"):
 		return "empty"
+	case strings.Contains(s, "unknown order"):
+		return "unknownorder"
 	}
 	return "other:" + hx.HexS(s)
 }
